@@ -35,6 +35,9 @@ LEVEL_TEXT = ("Machine-checked, for every SAX event sequence and every option se
               "the source as it is now; html_indent_not_adjacent_to_text for every sequence in which no void element is given "
               "children); version, encoding, standalone, omit-xml-declaration, doctype, indent amount and "
               "cdata-section-elements never change the content-bearing tokens (options_lexical, cdata_sections_lexical); the "
+              "raw flag set by the <?Xalan raw?> marker of a result tree fragment affects exactly the next text event, whether "
+              "characters() or cdata() delivers it (raw_flag_exact, raw_flag_one_text_event, html_raw_flag_exact), and every "
+              "function of the source that tests the flag resets it (raw_flag_consumers_reset, regenerated); the "
               "text method writes the string-value of the result tree and, once FormatterToText reports unrepresentable "
               "characters, never a substituted text (text_method_spec, text_method_encoded_spec); void elements get no end "
               "tag and the regenerated HTML tables satisfy what the lookups need (html_void_no_end_tag, html_void_and_raw_flags, "
@@ -48,9 +51,9 @@ LEVEL_NOTE = ("Trusted: the Lean kernel (leanchecker re-check in the thorough ti
               "bounded by generator coverage, which is reported in the evidence); the two regex translators; harness, "
               "generator, expat and the HTML reader of checks/c08.py as parse-back oracles. Modelled, not verified: "
               "transcoders/ICU/Xerces, XalanOutputStream buffering, characters outside the BMP in HTML and under non-Unicode "
-              "XML encodings (read-back predicates only), non-ASCII comments/PIs in HTML. html_indent_not_adjacent_to_text "
-              "assumes no void element is given children (counterexample proved and replayed). One known finding remains: "
-              "method=text silently substitutes 0x1A for characters the encoding cannot represent (repair proposed).")
+              "XML encodings (read-back predicates only), non-ASCII comments/PIs in HTML; the legacy FormatterToXML consumers of "
+              "m_nextIsRaw are covered by the translator obligation and, as base of FormatterToHTML, by the HTML correspondence. "
+              "html_indent_not_adjacent_to_text assumes no void element is given children (counterexample proved and replayed).")
 DESIGN_REF = "DESIGN.md section 5, C08; design/C08.md"
 
 P = "XalanModel.Props.C08."
@@ -67,6 +70,10 @@ THEOREMS = [P + n for n in [
     "text_method_ignores_options",
     "text_method_encoded_spec",
     "text_method_substitution_counterexample",
+    "raw_flag_exact",
+    "raw_flag_one_text_event",
+    "html_raw_flag_exact",
+    "raw_flag_consumers_reset",
     "callpoints_match",
     "html_table_sorted",
     "html_entities_sorted",
@@ -129,7 +136,7 @@ def expected_tree(nodes):
     for n in nodes:
         if n[0] == "elem":
             out.append(("elem", n[1], sorted(n[2]), expected_tree(n[3])))
-        elif n[0] in ("text", "raw"):
+        elif n[0] in ("text", "raw", "rtfraw"):
             if n[1] == "":
                 continue
             if out and out[-1][0] == "text":
@@ -236,7 +243,7 @@ def valid_units(t):
 
 
 def has_raw(nodes):
-    return any(n[0] == "raw" or (n[0] == "elem" and has_raw(n[3])) for n in nodes)
+    return any(n[0] in ("raw", "rtfraw") or (n[0] == "elem" and has_raw(n[3])) for n in nodes)
 
 
 def is_ws_text(n):
@@ -567,8 +574,7 @@ def check_xml_group(ctx, state, doc, evs, variants, replies, mreplies, lines, cd
         try:
             tree = parse_xml(data, enc)
         except xml.parsers.expat.ExpatError as e:
-            if raw:
-                continue
+            # (every disable-output-escaping string the generator uses is itself a well-formed fragment)
             state["fail"](ctx, ukey or "xml.not-wellformed[%s]" % tag, "output does not parse: %s: %r" % (e, text[:200]), key_in)
             continue
         cdset = cdata_elems if kind == "sax" else [x for k, v in cfg.get("out", []) if k == "cdata" for x in v]
@@ -657,7 +663,7 @@ def run(ctx):
 def nontrivial(doc):
     def mixed(kids):
         kinds = [k[0] for k in kids]
-        return ("text" in kinds or "raw" in kinds) and len(set(kinds)) > 1
+        return ("text" in kinds or "raw" in kinds or "rtfraw" in kinds) and len(set(kinds)) > 1
     def walk(nodes):
         for n in nodes:
             if n[0] == "elem" and (mixed(n[3]) or walk(n[3])):
@@ -683,6 +689,13 @@ CORPUS_DOCS += [([("elem", "a", [], [("text", t), ("text", u)])], ["a"]) for t i
 # XML 1.1 restricted characters, line ends and TAB in CDATA / text / comments / attribute values
 CORPUS_DOCS += [([("elem", "a", [("k", t)], [("text", t), ("comment", "c\td"), ("elem", "b", [], [("text", t)])])], cd)
                 for t in ["x\ry", "\r", "x\r\ny", "\u0085x", "x\u2028", "\tx\ty", "a\u0085\u2028\rb]]>c", "\u20ac\r\u20ac"] for cd in (["a"], ["b"], [])]
+# disable-output-escaping text replayed from a result tree fragment (marker PI + characters()/cdata()), followed by
+# ordinary text with < and &: the raw flag must be consumed by exactly the one text event
+RTF_TEXTS = ["1 < 2 & 3", "a&b", "<", "x]]>y"]
+CORPUS_DOCS += [([("elem", "a", [], [("elem", "c", [], [("rtfraw", rw), ("text", t)]), ("elem", "d", [], [("rtfraw", rw), ("text", t)])])], cd)
+                for rw in ("<r/>", "r") for t in RTF_TEXTS for cd in (["c"], ["c", "d"], [])]
+CORPUS_DOCS += [([("elem", "a", [], [("elem", "c", [], [("rtfraw", "r"), ("elem", "e", [], []), ("text", "1 < 2"), ("rtfraw", "s"), ("comment", "m"),
+                                                       ("text", "3 & 4"), ("text", "5 < 6")])])], cd) for cd in (["c"], [])]
 NONCHAR_DOCS = [([("elem", "a", [], [("text", t)])], cd) for t in ["x\udc00y", "\ud800", "x\ud800y", "\ufffe", "x\uffff"] for cd in (["a"], [])]
 NONCHAR_DOCS += [([("elem", "a", [("k", "\udc00")], [])], []), ([("elem", "a", [], [("comment", "c\ud800")])], [])]
 
@@ -929,7 +942,7 @@ def text_of(nodes):
     for n in nodes:
         if n[0] == "elem":
             yield from text_of(n[3])
-        elif n[0] in ("text", "raw"):
+        elif n[0] in ("text", "raw", "rtfraw"):
             yield n[1]
 
 
@@ -958,13 +971,15 @@ def gen_html_doc(r, ns=None):
         kids = []
         if depth > 0:
             for _ in range(r.weighted([(0, 2), (1, 4), (2, 4), (3, 3), (4, 1)])):
-                k = r.weighted([("elem", 8), ("text", 8), ("comment", 1), ("raw", 1), ("pi", 1)])
+                k = r.weighted([("elem", 8), ("text", 8), ("comment", 1), ("raw", 1), ("pi", 1), ("rtfraw", 1)])
                 if k == "elem":
                     kids.append(elem(depth - 1))
                 elif k == "text":
                     kids.append(("text", text()))
                 elif k == "raw":
                     kids.append(("raw", r.choice(["r", "r s", "rr"])))
+                elif k == "rtfraw":
+                    kids.append(("rtfraw", r.choice(["r", "r s", "rr"])))
                 elif k == "pi":
                     kids.append(("pi", "t", r.choice(["", "d"])))
                 else:
@@ -1147,7 +1162,7 @@ def expected_tree_html(nodes):
     for n in nodes:
         if n[0] == "elem":
             out.append(("elem", n[1], list(n[2]), expected_tree_html(n[3])))
-        elif n[0] in ("text", "raw"):
+        elif n[0] in ("text", "raw", "rtfraw"):
             out.append(("text", n[1]))
         elif n[0] == "comment":
             out.append(n)
